@@ -327,6 +327,10 @@ def main():
             return 0
         if r["cls"] in INFRA_CLASSES:
             return 2
+        k = match_known(load_known(), pid, h, r)
+        if k is not None:
+            print("KNOWN-FINDING: property=%s %s" % (pid, k["text"]))
+            return 0
         print("VIOLATION property=%s replay=%s" % (pid, a.replay))
         return 1
 
